@@ -418,8 +418,8 @@ Definition ascii_upper (c : string) : bool :=
 
 (* the classification used by the extracted driver: ASCII plus the few non-ASCII letters the
    generators use (the same as Lexer.test_uclass knows): e-acute, u-umlaut, alpha are lower case,
-   E-acute is upper case; everything else non-ASCII is neither *)
+   E-acute, U-umlaut, Alpha are upper case; everything else non-ASCII is neither *)
 Definition test_lower (c : string) : bool :=
   ascii_lower c || existsb (String.eqb c) [string_of_bytes [195; 169]; string_of_bytes [195; 188]; string_of_bytes [206; 177]].
 Definition test_upper (c : string) : bool :=
-  ascii_upper c || String.eqb c (string_of_bytes [195; 137]).
+  ascii_upper c || existsb (String.eqb c) [string_of_bytes [195; 137]; string_of_bytes [195; 156]; string_of_bytes [206; 145]].
